@@ -115,7 +115,7 @@ def getcallarg(function, args, kwargs):
     return arg
 
 
-def getcallargs(function, *args, **kwargs):
+def getcallargs(*args, **kwargs):
     """
     replicates inspect.getcallargs with support to functions within decorators
     
@@ -142,6 +142,7 @@ def getcallargs(function, *args, **kwargs):
     >>> args = (1,); kwargs = {'b' : 2}
     >>> assert getcallargs(function, *args, **kwargs) == inspect.getcallargs(function, *args, **kwargs) == dict(a = 1, b = 2)
     """
+    function, args = args[0], args[1:] # the function is positional-only (as in inspect.getcallargs), so that a keyword called 'function' is just another keyword
     spec = getargspec(function)
     arg_names = [] if spec.args is None else spec.args
     res = argspec_defaults(function)
